@@ -261,6 +261,10 @@ val outb_to_N : bool outcome -> n
 val run_match :
   mconsts -> bool -> bytes list -> bytes option -> bytes -> bytes -> n
 
+val run_filter :
+  mconsts -> bool -> bytes list -> service list -> qname list option ->
+  scopes_filter option -> (n list * n) list * bytes list option
+
 type known = z list
 
 val remember : nat -> known -> z -> known
@@ -281,9 +285,15 @@ val merge : service -> service -> service
 
 val add_remote : table -> service -> table
 
+type bye_extra = { bx_appseq : z option; bx_mdv : z option;
+                   bx_types : qname list; bx_scopes : bytes list option;
+                   bx_xaddrs : bytes list }
+
+val bx_plain : z -> bye_extra
+
 type msg =
 | MHello of z option * service
-| MBye of bytes
+| MBye of bytes * bye_extra
 | MProbe of qname list option * scopes_filter option
 | MProbeMatches of z option * service list
 | MResolve of bytes
